@@ -3,6 +3,7 @@ package chainprops
 import (
 	"fmt"
 	"os"
+	"strings"
 	"testing"
 
 	"pgregory.net/rapid"
@@ -16,7 +17,7 @@ import (
 // there is recorded as a halt with its stack.
 func TestC37(t *testing.T) {
 	c := ev.For("C37")
-	c.SetRule("rapid state machine over the full action alphabet (stake/modify/move/unstake/freeze, dualstaking and validator delegations, slashes, subscription buy/upgrade/advance/auto-renew, projects/keys/policies, plan add/modify/delete proposals, IPRPC data/fund, relay payments with QoS/excellence/unresponsive reports, block/epoch/hour/month advances) on a generated world, 1 case in 4 after a directed preamble with drawn parameters (a subscription whose auto-renewal fails for lack of funds onto a dearer plan version that another subscription holds, then a further plan version or the plan's deletion, then the other subscription's expiry) and 1 case in 4 after another one (a provider vault, which may also delegate to another provider, lowers its self stake to just above the minimum self delegation, its validators are slashed 1-3 times, the stake goes up again, relay payments, the vault unbonds everything from its validators, two month ends); oracle: no panic escapes End/BeginBlock; non-trivial = history crossed >=1 month boundary with >=1 accepted relay payment; distinct = distinct histories")
+	c.SetRule("rapid state machine over the full action alphabet (stake/modify/move/unstake/freeze, dualstaking and validator delegations, slashes, subscription buy/upgrade/advance/auto-renew, projects/keys/policies, plan add/modify/delete proposals, IPRPC data/fund, conflict detections with commit/reveal votes, relay payments with QoS/excellence/unresponsive reports, block/epoch/hour/month advances) on a generated world, 1 case in 4 after a directed preamble with drawn parameters (a subscription whose auto-renewal fails for lack of funds onto a dearer plan version that another subscription holds, then a further plan version or the plan's deletion, then the other subscription's expiry) and 1 case in 4 after another one (a provider vault, which may also delegate to another provider, lowers its self stake to just above the minimum self delegation, its validators are slashed 1-3 times, the stake goes up again, relay payments, the vault unbonds everything from its validators, two month ends), and 1 case in 4 after a complete conflict vote (detection, commits by a drawn subset of the voters with drawn options, commit period, reveals by a drawn subset, reveal period, closing in the begin-blocker); oracle: no panic escapes End/BeginBlock; non-trivial = history crossed >=1 month boundary with >=1 accepted relay payment; distinct = distinct histories")
 	c.Assume("transactions run atomically (cache context + bank snapshot) as under BaseApp; a panic inside a transaction is a failed transaction, not a halt",
 		"bank/account keepers are the repository's mocks")
 	rapid.Check(t, func(rt *rapid.T) {
@@ -104,6 +105,9 @@ func TestC37(t *testing.T) {
 		if scenario {
 			c37FailedRenewal(rt, w)
 		}
+		if rapid.IntRange(0, 3).Draw(rt, "conflictLifecyclePreamble") == 0 {
+			w.ConflictLifecycle(rt)
+		}
 		slashedVault := rapid.IntRange(0, 3).Draw(rt, "slashedVaultPreamble") == 0
 		if slashedVault {
 			c37SlashedVault(rt, w)
@@ -123,6 +127,32 @@ func TestC37(t *testing.T) {
 		}
 		if slashedVault {
 			classes = append(classes, "preamble:vault-slashed-at-minimum-self-delegation-then-restake-unbond-payout")
+		}
+		det, com, rev := 0, 0, 0
+		for _, h := range w.C.Hist {
+			if !strings.HasSuffix(h, "-> ok") {
+				continue
+			}
+			switch {
+			case strings.Contains(h, "tx conflictDetection("):
+				det++
+			case strings.Contains(h, "tx conflictCommit"):
+				com++
+			case strings.Contains(h, "tx conflictReveal"):
+				rev++
+			}
+		}
+		if det > 0 {
+			classes = append(classes, "conflict-vote-opened")
+		}
+		if com > 0 {
+			classes = append(classes, "conflict-vote-commit-accepted")
+		}
+		if rev > 0 {
+			classes = append(classes, "conflict-vote-reveal-accepted")
+		}
+		if det > 0 && len(w.C.TS.Keepers.Conflict.GetAllConflictVote(w.C.TS.Ctx)) < det {
+			classes = append(classes, "conflict-vote-closed-by-block-processing")
 		}
 		c.AddExtra("blocks", w.C.Blocks)
 		c.AddExtra("tx_ok", w.C.TxOK)
